@@ -374,23 +374,24 @@ func hasMultiMap(v any) bool {
 	return false
 }
 
-func sortedKeys(n *ref.Node, path string, out *[]string) {
+func sortedKeys(n *ref.Node, path string, htmlSafe bool, out *[]string) {
 	switch n.Kind {
 	case ref.Arr:
 		for i, c := range n.Arr {
-			sortedKeys(c, fmt.Sprintf("%s[%d]", path, i), out)
+			sortedKeys(c, fmt.Sprintf("%s[%d]", path, i), htmlSafe, out)
 		}
 	case ref.Obj:
 		for i := range n.Keys {
 			if i > 0 && !(n.Keys[i-1] < n.Keys[i]) {
 				m := fmt.Sprintf("%s: key %q written before %q", path, n.Keys[i-1], n.Keys[i])
 				// ascending in the JSON-encoded spelling but not in the key itself?
-				if ea, eb := string(ojg.AppendJSONString(nil, n.Keys[i-1], false)), string(ojg.AppendJSONString(nil, n.Keys[i], false)); ea < eb {
+				// (the spelling the writer used: with HTMLSafe < > & are escapes as well)
+				if ea, eb := string(ojg.AppendJSONString(nil, n.Keys[i-1], htmlSafe)), string(ojg.AppendJSONString(nil, n.Keys[i], htmlSafe)); ea < eb {
 					m = "ENCODED-ORDER " + m
 				}
 				*out = append(*out, m)
 			}
-			sortedKeys(n.Vals[i], path+"."+n.Keys[i], out)
+			sortedKeys(n.Vals[i], path+"."+n.Keys[i], htmlSafe, out)
 		}
 	}
 }
@@ -478,7 +479,7 @@ func Run(cs Case, c *vrt.Ctx) {
 		// (4) sorted
 		if o.Sort {
 			var sk []string
-			sortedKeys(n, "$", &sk)
+			sortedKeys(n, "$", o.HTMLSafe, &sk)
 			for _, m := range sk {
 				tg := tags
 				if strings.HasPrefix(m, "ENCODED-ORDER ") {
